@@ -75,6 +75,8 @@ def step(x, kind, P, k):
         return -x
     if kind == "concat":
         return np.concatenate([x, x])
+    if kind == "concat1":
+        return np.concatenate([x])          # one operand: still a new array
     if kind == "sort":
         return x.sort()
     if kind == "cumsum":
@@ -88,7 +90,7 @@ def step(x, kind, P, k):
     raise ValueError(kind)
 
 
-READ_PROBES = ["ellipsis", "emptytuple", "read", "shape", "rowint", "elem", "rowslice", "colslice", "colrev", "ufunc", "rowsum", "iter", "tolist", "nonzero",
+READ_PROBES = ["nonzero_m", "rowlist", "ellipsis", "emptytuple", "read", "shape", "rowint", "elem", "rowslice", "colslice", "colrev", "ufunc", "rowsum", "iter", "tolist", "nonzero",
                "colint", "rowcolint", "maskidx", "colvals", "colsum", "colcounts", "padded", "padded_left", "unique", "cumsum", "concat", "where", "rslice", "any", "max"]
 WRITE_PROBES = ["set_row", "set_col", "set_all"]
 
@@ -135,6 +137,12 @@ def probe(d, kind, P):
         return tuple(tuple(common.pyval(c) for c in r) for r in d.tolist())
     if kind == "nonzero":
         return np.nonzero(d)
+    if kind == "nonzero_m":
+        return d.nonzero()
+    if kind == "rowlist":
+        if n == 0:
+            return ("precondition not met",)
+        return d[[pyint(P.int("qi", -n, n - 1)), pyint(P.int("qk", -n, n - 1))]]
     if kind == "colint":
         return d[:, pyint(P.int("qj", -B - 1, B + 1))]
     if kind == "rowcolint":
@@ -211,6 +219,10 @@ def ref_view_rows(rows, kind, P, k="v0", conc=int):
         if n == 0:
             return []
         return [rows[conc(P.int(f"{k}{t}", -n, n - 1))] for t in "ijk"]
+    if kind == "rowlist":
+        if n == 0:
+            return []
+        return [rows[conc(P.int(f"{k}{t}", -n, n - 1))] for t in "ij"]
     if kind == "mask":
         m = P.bools(f"{k}m", n)
         return [r for r, b in zip(rows, m) if conc(b)]
